@@ -228,7 +228,7 @@ impl<F: Flavor> Sys<F> {
     fn invariants(&mut self, out: &mut StepOut) {
         let (na, nf) = harness::take_alloc_counts();
         if na + nf > 0 {
-            out.v("C18", "alloc-in-call", format!("{} allocations / {} frees inside library calls of this step", na, nf));
+            out.p("C18", "alloc-in-call", format!("{} allocations / {} frees inside library calls of this step", na, nf));
         }
         let snap = F::snapshot(&self.chan);
         let live = self.live_nodes();
@@ -239,13 +239,13 @@ impl<F: Flavor> Sys<F> {
         for (i, s) in self.slots.iter().enumerate() {
             if let Some(s) = s {
                 if s.fut.get().is_terminated() != s.meta.done {
-                    out.v("C17", "is-terminated", format!("slot {}: is_terminated()={} but completed={}", i, s.fut.get().is_terminated(), s.meta.done));
+                    out.p("C17", "is-terminated", format!("slot {}: is_terminated()={} but completed={}", i, s.fut.get().is_terminated(), s.meta.done));
                 }
                 if s.meta.pending() && !fresh(G, i, &s.meta) {
                     if s.req < n {
-                        out.v("C13", "send-did-not-wake", format!("slot {}: a state newer than the requested one was published while this receiver was pending, but it has not been woken through the waker of its latest poll", i));
+                        out.p("C13", "send-did-not-wake", format!("slot {}: a state newer than the requested one was published while this receiver was pending, but it has not been woken through the waker of its latest poll", i));
                     } else if self.closed {
-                        out.v("C11", "pending-not-woken", format!("slot {}: the channel was closed while this receiver was pending, but it has not been woken through the waker of its latest poll", i));
+                        out.p("C11", "pending-not-woken", format!("slot {}: the channel was closed while this receiver was pending, but it has not been woken through the waker of its latest poll", i));
                     }
                 }
             }
